@@ -300,7 +300,7 @@ func checkC14(c *Ctx) {
 					return
 				}
 				pmu.Lock()
-				prs = append(prs, protoRun{ID: id, Args: args, Kinds: kinds, Events: fr.Events, Exit: fr.Exit, Stdout: fr.Stdout})
+				prs = append(prs, protoRun{ID: id, Args: args, Kinds: kinds, Events: fr.Events, Exit: fr.Exit, Stdout: fr.Stdout, Stderr: fr.Stderr})
 				pmu.Unlock()
 			}()
 		}
